@@ -52,6 +52,8 @@ def _q15(ea, eb, ec, all_, force, pi, answer, pr_i, lnk, hashing):
             for rel, e in (("a", ea), ("b", eb), ("c", ec)):
                 if e:
                     w.file(rel, 6, "" if (rel == "b" and sh.get("empty_b")) else "output " + rel)   # b may be a zero-length marker file
+            if sh["shape"] == "chain3x" and eb:
+                w.file("b.idx", 6, "second output of B; its name starts with the name of the first")
         if lnk:
             # output a is a symbolic link to an unrelated file
             del w.vfs.files[ROOT + "/a"]
@@ -132,10 +134,12 @@ def q15(ea: bool, eb: bool, ec: bool, all_: bool, force: bool, pi: int, answer: 
 QUERIES = [
     {"name": "Q15", "fn": q15,
      "shards": {"quick": [{"shape": "chain3", "pi": k, "pr": r} for k in range(len(PATS)) for r in (0, 1, 2, 4)] + [{"shape": "fork3", "pi": 0, "pr": r} for r in (0, 2)] + [{"shape": "dir-output", "pi": p_, "pr": 0} for p_ in (0, 1, 3)] + [{"shape": "chain3", "pi": p_, "pr": r, "empty_b": True} for p_, r in ((0, 0), (2, 0), (3, 1))]
-                         + [{"shape": "chain3", "pi": p_, "pr": r, "cwd": "analysis"} for p_, r in ((0, 0), (3, 2))],
+                         + [{"shape": "chain3", "pi": p_, "pr": r, "cwd": "analysis"} for p_, r in ((0, 0), (3, 2))]
+                         + [{"shape": "chain3x", "pi": p_, "pr": r} for p_, r in ((0, 1), (3, 2))],
                 "thorough": [{"shape": s, "pi": k, "pr": r} for s in ("chain3", "fork3", "two-ends", "dir-output") for k in range(len(PATS)) for r in range(len(PROTECT))]
-                             + [{"shape": "chain3", "pi": k, "pr": r, "cwd": "analysis"} for k in range(len(PATS)) for r in (0, 2, 3)]},
+                             + [{"shape": "chain3", "pi": k, "pr": r, "cwd": "analysis"} for k in range(len(PATS)) for r in (0, 2, 3)]
+                             + [{"shape": "chain3x", "pi": k, "pr": r} for k in range(len(PATS)) for r in (0, 1, 2, 3)]},
      "timeout": {"quick": 1500, "thorough": 3000},
-     "bound": "3 targets (chain: a file that is output of one target and input of the next; fork; a target whose declared output is a directory that holds other targets' outputs and a stray file); in some shards the middle output is a zero-length file, in some gwf is invoked from a sub-directory holding files with the outputs' relative names; existence of every output, --all, --force, prompt answer, spec hashing on/off, output a optionally a symlink to an unrelated file (symbolic bools); "
+     "bound": "3 targets (chain: a file that is output of one target and input of the next; fork; a target whose declared output is a directory that holds other targets' outputs and a stray file); in some shards the middle output is a zero-length file, in some the middle target has a second output whose name extends the protected one's, in some gwf is invoked from a sub-directory holding files with the outputs' relative names; existence of every output, --all, --force, prompt answer, spec hashing on/off, output a optionally a symlink to an unrelated file (symbolic bools); "
               "pattern sets %s (one per shard); protect set of B from %s" % (PATS, [p[0] for p in PROTECT])},
 ]
